@@ -13,9 +13,9 @@ def main(tier, args):
     d_reinit = 6 if quick else 7        # configuration 3 (2 timers, every initialize() variant, one timer born uninitialised)
     d_sleep = 5 if quick else 6         # configuration 4 (exitLoop(T) + runLoop(kForever), simulated sleep)
     d_big = 4 if quick else 6           # configurations 5..10 (intervals around 2^31, 2^32, 2^33 ms and 30/60/75 days)
-    # configuration 11 (an interval / exit wait in [2^31, 2^32) ms in the sleeping lane) is OFF by default: on the unchanged tree the epoll back-end
-    # hands getWaitTime()'s int64 to epoll_wait's int, the time-out turns negative and the loop blocks for ever -> C02_BIG_SLEEP=1 shows it
-    big_sleep = os.environ.get("C02_BIG_SLEEP", "0") not in ("", "0")
+    # configuration 11 (an interval / exit wait in [2^31, 2^32) ms in the sleeping lane) was off until the repair in /repo: before it the epoll back-end
+    # hands getWaitTime()'s int64 to epoll_wait's int, the time-out turned negative and the loop blocked for ever
+    big_sleep = os.environ.get("C02_BIG_SLEEP", "1") not in ("", "0")      # on by default since the repair in /repo (epoll wait clamped to INT_MAX); C02_BIG_SLEEP=0 turns it off
     res = vf.Result(); log = open(vf.BUILD + "/C02/log.txt", "w")
     jobs = []
     for e in ("epoll", "select"):
@@ -65,4 +65,4 @@ def main(tier, args):
                            "run-for lane: the back-end sleeps what it is asked to (or half of it), a sub-millisecond select time-out counts as 1 ms, 8 consecutive zero time-outs as 1 ms; a wake-up later than requested is not modelled there (the pass lanes do that)",
                            "a timer that becomes due because a callback of the same pass was slow need not fire in that pass (due is judged against the clock at wake-up)",
                            "raw CommonLoop::addTimer with repeat >= 2 is not driven (TimerEvent only issues 0 and 1); return values of enable/disable/initialize are not judged; no op is issued from runInLoop or FdEvent callbacks (runNext covers 'after the scan, loop running')",
-                           "intervals in [2^31, 2^32) ms (mod 2^32) in the SELF-SLEEPING lane are switched off (C02_BIG_SLEEP=1): epoll back-end passes a 64-bit wait to epoll_wait's int -> negative -> blocks for ever; history: exitLoop(2147483653)+runLoop(kForever)"])
+                           "intervals in [2^31, 2^32) ms in the SELF-SLEEPING lane (configuration 11) are explored by default since the repair in /repo (before it the epoll back-end passed a 64-bit wait to epoll_wait's int -> negative -> blocked for ever on exitLoop(2147483653)+runLoop(kForever)); C02_BIG_SLEEP=0 turns the configuration off"])
